@@ -12,6 +12,7 @@ use std::io;
 use std::net::SocketAddr;
 use std::pin::Pin;
 use std::rc::Rc;
+use std::sync::Arc;
 use std::task::{Context, Poll, Waker};
 use tokio::io::{AsyncRead, AsyncWrite, ReadBuf};
 use tokio::sync::{mpsc, Notify};
@@ -117,7 +118,7 @@ struct Net {
     items: HashMap<u64, Item>,
     next_conn: u64,
     next_ticket: u64,
-    notify: Rc<Notify>,
+    notify: Arc<Notify>,
 }
 
 impl Net {
@@ -129,7 +130,7 @@ impl Net {
             items: HashMap::new(),
             next_conn: 1,
             next_ticket: 1,
-            notify: Rc::new(Notify::new()),
+            notify: Arc::new(Notify::new()),
         }
     }
 
